@@ -1,5 +1,7 @@
 package main
 
+import "math"
+
 // histWorld: the history worlds of the state-machine properties (C01-C07, C09, C10, C15).
 // Several scripted clients are interleaved by the seeded scheduler into one history; the real
 // container and the reference model execute it in lock-step and the property's oracles are
@@ -124,6 +126,14 @@ func genArrayLoad(r *Rng, id int, s Subject) Op {
 		doc = mustJSON(x.vals(idx))
 	case *heapSubj[Item]:
 		doc = mustJSON(x.vals(idx))
+	case *heapSubj[float64]:
+		fs := x.vals(idx)
+		for i, f := range fs {
+			if math.IsInf(f, 0) || f != f {
+				fs[i] = 0.5 // not JSON-representable
+			}
+		}
+		doc = mustJSON(fs)
 	default:
 		panic("genArrayLoad: not a heap")
 	}
